@@ -131,21 +131,38 @@ def retry_adapters(ck, F, R):
             ok_loop = b.in_loop(s.bb)
             alts = flat_alts(b.expr_at_return())
             ok_ret = bool(alts) and all(x.strip().k == "call" and x.strip().x.get("site") == s for x in alts)
-            # the only way back to the read is the `kind() == Interrupted` edge of its own error
-            eqs = []
-            for s2, c2, t2 in b.calls():
-                if c2 and c2["path"].endswith("PartialEq::eq") and "ErrorKind" in (c2.get("inst", "") + c2.get("resolved", "")):
-                    x, y = b.arg_exprs(s2)
-                    kinds = [z for z in (x, y) if any(w.k == "call" and w.x["path"].endswith("io::Error::kind") and any(v.k == "call" and v.x.get("site") == s for v in w.walk()) for w in z.walk())]
-                    consts = [z for z in (x, y) if any(w.k == "text" and w.x.get("variant") == "Interrupted" for w in z.walk())]
-                    if kinds and consts:
-                        eqs.append(s2)
-            if len(eqs) == 1:
-                ed = bool_edges(b, value_site=eqs[0])
-                if ed is not None:
-                    # without the true edge of that comparison the read call cannot be reached again from itself
-                    reach = reachable_without(b, banned_edges={(ed[0], ed[1])}, start=b.succs(s.bb)[0] if b.succs(s.bb) else s.bb)
-                    ok_retry = s.bb not in reach and s.bb in b.reachable_from(ed[1])
+            # the only way back to the read is an edge taken only when its own error is `Interrupted`: a branch on
+            # `e.kind() == Interrupted` itself, or on a flag that is false on the other paths and that test on the Err path
+            def is_eq(x):
+                x = x.strip()
+                if not (x.k == "call" and x.x["path"].endswith(("PartialEq::eq", "PartialEq>::eq")) and len(x.a) == 2):
+                    return False
+                kinds = [z for z in x.a if any(w.k == "call" and w.x["path"].endswith("io::Error::kind") and any(v.k == "call" and v.x.get("site") == s for v in w.walk()) for w in z.walk())]
+                consts = [z for z in x.a if any(w.k == "text" and w.x.get("variant") == "Interrupted" for w in z.walk())]
+                return bool(kinds) and bool(consts)
+            banned = set()
+            for bb in sorted(b.normal_blocks()):
+                t = b.term(bb)
+                if t["t"] != "switch":
+                    continue
+                d = b.expr_of_operand(t["discr"], Site(bb, None))
+                neg = False
+                while d.k == "un" and d.x.get("op") == "Not":
+                    neg, d = not neg, d.a[0]
+                alts = flat_alts(d)
+                if not alts or not any(is_eq(x) for x in alts):
+                    continue
+                if not all(is_eq(x) or const_val(x) == 0 for x in alts):
+                    continue
+                zero = [tb for v, tb in t["arms"] if int(v) == 0]
+                if not zero:
+                    continue
+                true_t, false_t = t["otherwise"], zero[0]
+                banned.add((bb, false_t if neg else true_t))
+            if banned:
+                start_bb = b.succs(s.bb)[0] if b.succs(s.bb) else s.bb
+                reach = reachable_without(b, banned_edges=banned, start=start_bb)
+                ok_retry = s.bb not in reach and any(s.bb in (b.reachable_from(e[1]) | {e[1]}) for e in banned)
         ok = ok_one and ok_args and ok_loop and ok_ret and ok_retry
         ck.ob(R, f"retry-adapter/{adt}", ok, f"{adt}'s io::Read::read is an interruption-retrying pass-through: one inner read on (self.0, buf) [{ok_one and ok_args}], inside a loop [{ok_loop}], every returned value is that call's own result [{ok_ret}], and the loop continues only when its error kind == Interrupted [{ok_retry}]", b)
         if ok:
